@@ -1431,7 +1431,8 @@ func (r *Runtime) checkStdArrayObj(obj *Object) *arrayObject {
 	if arr, ok := obj.self.(*arrayObject); ok &&
 		arr.propValueCount == 0 &&
 		arr.length == uint32(len(arr.values)) &&
-		uint32(arr.objCount) == arr.length {
+		uint32(arr.objCount) == arr.length &&
+		arr.extensible && arr.lengthProp.writable {
 
 		return arr
 	}
